@@ -8,6 +8,7 @@ CONSTANTS
  MaxGen = 3
  DirUsable = TRUE
  IoFaults = 0
+ WriteFaults = 0
  EarlyHandBack = TRUE
 INVARIANTS NothingLost NoSilentLoss TypeOK ConfirmedGone ConfirmedOnce Fifo DiskWithinLimit GaugeCoversDisk ChunkBalance AllPersisted
 CHECK_DEADLOCK FALSE
